@@ -302,15 +302,30 @@ Theorem charge_maps_inverse :
                     end) r_charge_map = true.
 Proof. vm_compute. repeat split; reflexivity. Qed.
 
+Definition w_charge_ok (c : Z) : bool :=
+  match zget_last w_charge_map c with
+  | Some s => Nat.eqb (length (L s)) 3 &&
+              option_eqb Z.eqb (sget_last r_charge_map (L s)) (Some (if (c =? 4) || (c =? -4) then 0 else c)) &&
+              negb (existsb (fun ch => Ascii.eqb ch nl) (L s))
+  | None => false
+  end.
+Lemma w_charge_ok_all : forallb w_charge_ok (zrange (-4) 5) = true.
+Proof. vm_compute. reflexivity. Qed.
+Lemma option_eqb_Z_eq a b : option_eqb Z.eqb a (Some b) = true -> a = Some b.
+Proof. destruct a as [x|]; cbn; [|discriminate]. intros H. apply Z.eqb_eq in H. subst. reflexivity. Qed.
+(* the code the writer emits for a charge: 3 characters, read back as the charge (+-4 as 0, repaired by M  CHG) *)
 Lemma w_charge_spec c : -4 <= c <= 4 ->
-  exists s, w_charge c = Ok s /\ length s = 3%nat /\ r_charge s = Ok (if (c =? 4) || (c =? -4) then 0 else c) /\ Forall (fun ch => ch = sp \/ is_digit ch) s.
+  exists s, w_charge c = Ok s /\ length s = 3%nat /\ r_charge s = Ok (if (c =? 4) || (c =? -4) then 0 else c) /\ ~ In nl s.
 Proof.
-  intros H. assert (c = -4 \/ c = -3 \/ c = -2 \/ c = -1 \/ c = 0 \/ c = 1 \/ c = 2 \/ c = 3 \/ c = 4) as C by lia.
-  assert (D : forall d, 0 <= d <= 9 -> is_digit (digit_chr d)) by (intros d Hd; exists d; split; [exact Hd | reflexivity]).
-  repeat (destruct C as [-> | C]); try subst c;
-    (eexists; split; [vm_compute; reflexivity | split; [reflexivity | split; [vm_compute; reflexivity |]]]);
-    repeat constructor; right;
-    first [apply (D 0); lia | apply (D 1); lia | apply (D 2); lia | apply (D 3); lia | apply (D 5); lia | apply (D 6); lia | apply (D 7); lia].
+  intros H. pose proof w_charge_ok_all as B. rewrite forallb_forall in B.
+  specialize (B c). rewrite zrange_In in B. specialize (B ltac:(lia)).
+  unfold w_charge_ok in B. unfold w_charge, r_charge.
+  destruct (zget_last w_charge_map c) as [s|]; [|discriminate].
+  apply andb_prop in B. destruct B as [B B3]. apply andb_prop in B. destruct B as [B1 B2].
+  exists (L s). cbn [option_map of_opt]. split; [reflexivity|]. split; [apply Nat.eqb_eq; exact B1|]. split.
+  - apply option_eqb_Z_eq in B2. rewrite B2. reflexivity.
+  - intros Hin. apply negb_true_iff in B3. rewrite <- not_true_iff_false in B3. apply B3.
+    apply existsb_exists. exists nl. split; [exact Hin | apply ascii_eqb_refl].
 Qed.
 
 (* MRV bond_map: writer half and reader half agree (order 8 is written as order="1" queryType="Any"; the reader prefers
